@@ -670,7 +670,7 @@ func bgsize(l []*Node, ctx *Ctx) ([]Atom, string) {
 		if isIdent(c, "auto") {
 			return kw("auto"), true
 		}
-		return lenAtom(c, ctx)
+		return posOffset(c, ctx) // a zero percentage and a zero length are the same size
 	}
 	switch len(l) {
 	case 1:
